@@ -127,8 +127,11 @@ class C04(Check):
         "so the scheduler's section reads exactly what the bookkeeping says; explicit dependencies: disable_checks, state filter Up, parent = a gate host "
         "that is never scheduled and whose hard state only the harness sets",
         "script=plugin runs the real PluginCheckTask::ScriptFunc / ProcessFinishedHandler with real processes; its two counter operations cannot be "
-        "logged atomically, so `pi` is logged after the real +1 and `pd` before the real -1: the counter the driver derives is never above the real one "
-        "(no false concurrency_slot), at the price of not seeing a dispatch that used a unit for a few microseconds longer",
+        "logged atomically, so `pi` is logged after the real +1 and `pd` before the real -1: the counter the driver derives is never above the real one; "
+        "and because the scheduler READS the counter (checkercomponent.cpp:121) earlier in the same critical section that ends at the sched.pick point, a real +1 of "
+        "PluginCheckTask (outside the checker's mutex) can fall between that read and the pick point: `pi` lines logged since the last event that was logged under the "
+        "checker's mutex are therefore taken as happening after the dispatch when that makes it legitimate (STATS slot_judged_before_plugin_inc; no false "
+        "concurrency_slot / pick-not-enabled - observed once under negative control nc5 before this rule), at the price of not seeing a dispatch that used a unit for a few microseconds longer",
         "at most one harness operation per checkable is in flight at a time (operations on different checkables, helpers and the scheduler run concurrently)",
         "check commands either deliver their result from inside the command function (or throw), or behave like PluginCheckTask: hand the work to a "
         "'process' (own thread), take their own +1 on the pending-checks counter after the spawn and give it back when the process finished, "
